@@ -16,19 +16,21 @@
 EXTENDS Naturals, Sequences, FiniteSets, TLC, Json
 Modes == {"human", "json", "cyborg", "dump"}
 Inputs == {"valid", "unprocessable", "notadump", "empty", "missing", "directory"}
-VARIABLES modes, brief, pretty, outfile, features, input, symbols, ran
-vars == <<modes, brief, pretty, outfile, features, input, symbols, ran>>
-Init == modes = {} /\ brief = FALSE /\ pretty = FALSE /\ outfile = FALSE /\ features = "stable-basic" /\ input = "valid" /\ symbols = "none" /\ ran = FALSE
-AddMode == ~ran /\ Cardinality(modes) < 2 /\ \E m \in Modes \ modes : modes' = modes \cup {m} /\ UNCHANGED <<brief, pretty, outfile, features, input, symbols, ran>>
-SetBrief == ~ran /\ ~brief /\ brief' = TRUE /\ UNCHANGED <<modes, pretty, outfile, features, input, symbols, ran>>
-SetPretty == ~ran /\ ~pretty /\ pretty' = TRUE /\ UNCHANGED <<modes, brief, outfile, features, input, symbols, ran>>
-SetOutfile == ~ran /\ ~outfile /\ outfile' = TRUE /\ UNCHANGED <<modes, brief, pretty, features, input, symbols, ran>>
-SetFeatures == ~ran /\ features = "stable-basic" /\ modes \subseteq {"json"} /\ ~brief /\ features' \in {"stable-all", "unstable-all"} /\ UNCHANGED <<modes, brief, pretty, outfile, input, symbols, ran>>
-SetInput == ~ran /\ input = "valid" /\ input' \in Inputs \ {"valid"} /\ UNCHANGED <<modes, brief, pretty, outfile, features, symbols, ran>>
+VARIABLES modes, brief, pretty, outfile, features, input, symbols, rfa, ran
+vars == <<modes, brief, pretty, outfile, features, input, symbols, rfa, ran>>
+Init == modes = {} /\ brief = FALSE /\ pretty = FALSE /\ outfile = FALSE /\ features = "stable-basic" /\ input = "valid" /\ symbols = "none" /\ rfa = FALSE /\ ran = FALSE
+AddMode == ~ran /\ Cardinality(modes) < 2 /\ \E m \in Modes \ modes : modes' = modes \cup {m} /\ UNCHANGED <<brief, pretty, outfile, features, input, symbols, rfa, ran>>
+SetBrief == ~ran /\ ~brief /\ brief' = TRUE /\ UNCHANGED <<modes, pretty, outfile, features, input, symbols, rfa, ran>>
+SetPretty == ~ran /\ ~pretty /\ pretty' = TRUE /\ UNCHANGED <<modes, brief, outfile, features, input, symbols, rfa, ran>>
+SetOutfile == ~ran /\ ~outfile /\ outfile' = TRUE /\ UNCHANGED <<modes, brief, pretty, features, input, symbols, rfa, ran>>
+SetFeatures == ~ran /\ features = "stable-basic" /\ modes \subseteq {"json"} /\ ~brief /\ features' \in {"stable-all", "unstable-all"} /\ UNCHANGED <<modes, brief, pretty, outfile, input, symbols, rfa, ran>>
+SetInput == ~ran /\ input = "valid" /\ input' \in Inputs \ {"valid"} /\ UNCHANGED <<modes, brief, pretty, outfile, features, symbols, rfa, ran>>
 SetSymbols == ~ran /\ symbols = "none" /\ modes \subseteq {"json", "human"} /\ ~brief /\ ~outfile /\ input = "valid" /\ symbols' \in {"positional", "flag", "both"}
-              /\ UNCHANGED <<modes, brief, pretty, outfile, features, input, ran>>
-Run == ~ran /\ ran' = TRUE /\ UNCHANGED <<modes, brief, pretty, outfile, features, input, symbols>>
-Next == AddMode \/ SetBrief \/ SetPretty \/ SetOutfile \/ SetFeatures \/ SetInput \/ SetSymbols \/ Run
+              /\ UNCHANGED <<modes, brief, pretty, outfile, features, input, rfa, ran>>
+\* --recover-function-args is an analysis option of the library: it changes what the reports contain, never which report goes where
+SetRfa == ~ran /\ ~rfa /\ ~outfile /\ ~pretty /\ features = "stable-basic" /\ input = "valid" /\ rfa' = TRUE /\ UNCHANGED <<modes, brief, pretty, outfile, features, input, symbols, ran>>
+Run == ~ran /\ ran' = TRUE /\ UNCHANGED <<modes, brief, pretty, outfile, features, input, symbols, rfa>>
+Next == AddMode \/ SetBrief \/ SetPretty \/ SetOutfile \/ SetFeatures \/ SetInput \/ SetSymbols \/ SetRfa \/ Run
 Spec == Init /\ [][Next]_vars
 \* ---- the documented behaviour ----
 GroupOk == Cardinality(modes) <= 1                                 \* clap rejects two mode flags (usage error)
@@ -57,5 +59,5 @@ FailureIsSilent == Outcome.exit # "zero" => (Outcome.primary = <<>> /\ Outcome.c
 SuccessHasPrimary == Outcome.exit = "zero" => Len(Outcome.primary) = 1
 CyborgOnlyWithCyborg == Outcome.cyborg # <<>> => Cyborg
 Emit == ran => PrintT(<<"CASE", ToJson([modes |-> modes, brief |-> brief, pretty |-> pretty, outfile |-> outfile, features |-> features, input |-> input,
-                                          symbols |-> symbols, out |-> Outcome])>>)
+                                          symbols |-> symbols, rfa |-> rfa, out |-> Outcome])>>)
 ====
